@@ -40,6 +40,10 @@ func c07Gen(seed uint64, run int, tier string) *Case {
 			for k := r.Intn(3); k > 0; k-- {
 				c.Ops = append(c.Ops, reqOp(ci, r.Intn(nWTypes), 20+r.Intn(6), r.Pick(PNow, PNow, PHold), r.Pct(15), r.Pick(0, 5, 60), r.Pct(40), 0))
 			}
+			if r.Pct(20) {
+				// a Tflush naming a tag that was never used, written while whatever is parked is parked: answered at once
+				c.Ops = append(c.Ops, flushOp(ci, 90+e, 200+e, fpNoWait, r.Pct(50)))
+			}
 			// stage "queued": the target waits behind a same-tag request
 			queued := r.Pct(20)
 			if queued {
